@@ -83,7 +83,9 @@ var wireNames = [...]string{"pair", "sut-sends", "sut-receives", "duplex"}
 type plan struct {
 	wiring  int
 	lens    []int
-	lens2   []int // duplex: frames of the reverse direction
+	lens2   []int // duplex: frames of the reverse direction; two sessions: frames of the second session
+	twoSess bool  // sut-receives: the transport is closed after recv1 frames and connected again (second session)
+	recv1   int
 	cutKind int
 	cutAt   int // byte offset in the wire stream
 	segMode int // -1 from the choice stream, 0 whole, 1 byte by byte
@@ -166,6 +168,12 @@ func genPlan(o hx.Opts) *plan {
 	if p.wiring == WireDuplex {
 		p.lens2 = append(p.lens2, lens2[:n2]...)
 	}
+	ts, r1 := hx.G(4), hx.G(maxFrames+1)
+	if p.wiring == WireSUTRecv && ts == 0 {
+		p.twoSess = true
+		p.lens2 = append(p.lens2, lens2[:n2]...)
+		p.recv1 = r1
+	}
 	p.window = [...]int{1 << 20, 1 << 20, 4096, 64, 7}[hx.G(5)]
 	ck, cpos, cfine := hx.F(5), hx.F(1<<16), hx.F(12)
 	switch ck {
@@ -207,7 +215,7 @@ func genPlan(o hx.Opts) *plan {
 			p.cutKind = cutFIN
 		}
 	}
-	if p.wiring == WireDuplex {
+	if p.wiring == WireDuplex || p.twoSess {
 		p.cutKind = cutNone
 	}
 	return p
@@ -342,6 +350,64 @@ func Run(seed uint64, index int64, o hx.Opts) *hx.Result {
 		}
 		simnet.SetDefaultWindow(pl.window)
 
+		if pl.twoSess {
+			// one transport object, two consecutive sessions: what the first connection left unread must not
+			// leak into the second
+			for f, l := range pl.lens2 {
+				frames2 = append(frames2, payload(200+f, l))
+			}
+			var stream2 []byte
+			var legal2 [][]byte
+			for _, p := range frames2 {
+				if len(p) <= maxLen {
+					legal2 = append(legal2, p)
+					stream2 = append(stream2, frame(p)...)
+				}
+			}
+			ln, err := simnet.Listen("tcp", "10.0.0.2:139")
+			if err != nil {
+				panic(err)
+			}
+			tr := transport.NewTransport("nbt")
+			peer := rt.GoHarness("peer", "10.0.0.2", func() {
+				for _, data := range [][]byte{stream, stream2} {
+					c, err := ln.Accept()
+					if err != nil {
+						return
+					}
+					c.Write(data) // the first session may be closed by the receiver half way: errors are expected
+					defer c.Close()
+				}
+			})
+			n1 := pl.recv1
+			if n1 > len(legal) {
+				n1 = len(legal)
+			}
+			sut := rt.GoHarness("receiver", "10.0.0.1", func() {
+				if err := tr.Connect(net.IP{10, 0, 0, 2}, 139); err != nil {
+					bad = &hx.Violation{Class: "connect", Key: "connect", Msg: err.Error()}
+					return
+				}
+				if n1 > 0 {
+					recvs = receiveAll(tr, n1, false)
+				}
+				tr.Close()
+				if err := tr.Connect(net.IP{10, 0, 0, 2}, 139); err != nil {
+					bad = &hx.Violation{Class: "connect", Key: "reconnect", Msg: err.Error()}
+					return
+				}
+				recvs2 = receiveAll(tr, len(legal2), false)
+			})
+			rt.Join(sut, -1)
+			tr.Close()
+			rt.Join(peer, -1)
+			ln.Close()
+			frames = frames[:0]
+			for i := 0; i < n1; i++ {
+				frames = append(frames, legal[i])
+			}
+			return
+		}
 		switch pl.wiring {
 		case WireSUTRecv:
 			ln, err := simnet.Listen("tcp", "10.0.0.2:139")
@@ -561,13 +627,26 @@ func Run(seed uint64, index int64, o hx.Opts) *hx.Result {
 	if pl.wiring == WireDuplex {
 		desc += fmt.Sprintf(" reverse-frames=%v", pl.lens2)
 	}
+	if pl.twoSess {
+		desc += fmt.Sprintf(" two-sessions: close after %d receives, reconnect, second-session-frames=%v", pl.recv1, pl.lens2)
+	}
 	if pl.cutKind != cutNone {
 		desc += fmt.Sprintf("@%d", pl.cutAt)
 	}
 	desc += fmt.Sprintf(" seg=%d window=%d", pl.segMode, pl.window)
 	res.Sample = map[string]any{"plan": desc, "sends": len(sends), "receives": len(recvs), "wire_bytes_seen_by_peer": len(wire)}
 	if v == nil && bad == nil {
-		if pl.wiring == WireDuplex {
+		if pl.twoSess {
+			pp := *pl
+			pp.wiring = WireSUTRecv
+			bad = oracle(&pp, frames, recvs, nil, nil)
+			if bad == nil {
+				bad = oracle(&pp, frames2, recvs2, nil, nil)
+				if bad != nil {
+					bad.Key = "second-session/" + bad.Key
+				}
+			}
+		} else if pl.wiring == WireDuplex {
 			pp := *pl
 			pp.wiring = WirePair
 			bad = oracle(&pp, frames, recvs, sends, nil)
